@@ -7,6 +7,9 @@
 #include "../fw/explore.h"
 #include "../fw/hx.h"
 #include "c01_cases.h"
+#include "../fw/simbus.h"
+#include "../fw/cfg.h"
+#include "include/bidib.h"
 #include "src/transmission/bidib_transmission_intern.h"
 #include <stdio.h>
 #include <stdlib.h>
@@ -307,7 +310,75 @@ static size_t long_gen(long idx, uint8_t *payload, char *human, size_t hn) {
 	ljob_t j = { (int32_t) (idx * LONG_BATCH), LONG_BATCH }; if (j.from + j.count > LONG_CASES) j.count = LONG_CASES - j.from;
 	memcpy(payload, &j, sizeof j); snprintf(human, hn, "payload sizes %d..%d x 4 variants", 4 + j.from / 4, 4 + (j.from + j.count - 1) / 4); return sizeof j;
 }
-void c02_register(void) { harness_register("c02.long", long_child); harness_register("c02.fault", fault_child); harness_register("c02.chunk", chunk_child); harness_register("c02.loop", loop_child); }
+/* ---------------------------------------------------------------- c02.addr: the sender address a message is PROCESSED with
+ * Debug mode only shows the message bytes.  In the normal dispatcher the library answers a node-table notice with
+ * MSG_NODE_CHANGED_ACK addressed to the sender it attributed the notice to — that makes the processed address observable on the
+ * wire.  Packets of 2 and 3 messages: each earlier message a PONG, the last one MSG_NODE_NEW (unknown unique id), every
+ * combination of 7 address shapes (depth 0..3, two byte patterns per depth) per position: exactly one acknowledgement, to the
+ * address the LAST message carries, with its version. */
+static const uint8_t ASHAPE[7][4] = {{0, 0, 0, 0}, {1, 0, 0, 0}, {7, 0, 0, 0}, {1, 2, 0, 0}, {9, 8, 0, 0}, {1, 2, 3, 0}, {6, 5, 4, 0}};
+static void addr_child(const void *job, size_t n) {
+	vs_dev_t devs[VS_MAXDEV]; int nd; size_t pl; const uint8_t *p = job_parse(job, n, devs, &nd, &pl);
+	int first = p[0];
+	hx_child_begin(NULL, 0, 0, NULL, 0, 0);
+	if (hx_start_debug(0)) res_infra("start failed");
+	hx_quiesce(); bidib_set_lowlevel_debug_mode(false);
+	long cases = 0; uint8_t ver = 0;
+	for (int second = 0; second < 7; second++) for (int third = -1; third < 7; third++) {
+		int seqa[3] = {first, second, third}; int nmsg = third < 0 ? 2 : 3; const uint8_t *last = ASHAPE[seqa[nmsg - 1]];
+		uint8_t payload[120]; int po = 0; ver++;
+		for (int i = 0; i < nmsg; i++) {
+			if (i < nmsg - 1) { uint8_t d = (uint8_t) (0x40 + i); po += rc_build_msg(payload + po, ASHAPE[seqa[i]], 0, MSG_SYS_PONG, &d, 1); }
+			else { uint8_t d[9] = {ver, 0x2A, 0x05, 0x00, 0x0D, 0x99, 0x00, 0x77, 0x66}; po += rc_build_msg(payload + po, last, 0, MSG_NODE_NEW, d, 9); }
+		}
+		uint8_t f[300]; size_t fl = rc_frame(f, payload, (size_t) po, 1); size_t mark = env_out_len();
+		env_push_quiet(f, fl); vs_point(); hx_quiesce(); bidib_flush(); hx_quiesce();
+		uint8_t *um; while ((um = bidib_read_message())) free(um); while ((um = bidib_read_error_message())) free(um);
+		static rc_pkt_t pk[8]; char err[160]; size_t len = env_out_len() - mark; int np = len ? rc_decode_strict(env_out() + mark, len, pk, 8, err, sizeof err) : 0;
+		int acks = 0, right = 0; char got[200]; size_t go = 0; got[0] = 0;
+		for (int i = 0; i < np; i++) for (int k = 0; k < pk[i].nmsgs; k++) { rc_msg_t *m = &pk[i].msgs[k]; if (m->type != MSG_NODE_CHANGED_ACK) continue; acks++;
+			if (!memcmp(m->addr, last, 4) && m->dlen == 1 && m->data[0] == ver) right++;
+			go += (size_t) snprintf(got + go, sizeof got - go, "%02x.%02x.%02x.%02x v%d; ", m->addr[0], m->addr[1], m->addr[2], m->addr[3], m->dlen ? m->data[0] : -1); }
+		char what[200]; size_t wo = (size_t) snprintf(what, sizeof what, "one packet, senders");
+		for (int i = 0; i < nmsg; i++) wo += (size_t) snprintf(what + wo, sizeof what - wo, " %02x.%02x.%02x(%s)", ASHAPE[seqa[i]][0], ASHAPE[seqa[i]][1], ASHAPE[seqa[i]][2], i < nmsg - 1 ? "pong" : "node-new");
+		if (np < 0) res_violation("wire-malformed", "%s: %s", what, err);
+		else if (acks != 1 || right != 1) res_violation("processed-with-wrong-sender: the answer to a message did not go to the address the message carries", "%s: acknowledgements on the wire: %s(expected one to %02x.%02x.%02x v%d)", what, got, last[0], last[1], last[2], ver);
+		cases++; vs_sleep_us(2500000); hx_quiesce();
+		if (res_nviol() > 3) break;
+	}
+	res_printf("O %x %x\nC addr_cases %ld\n", first, 0, cases);
+	res_finish();
+}
+static size_t addr_gen(long idx, uint8_t *payload, char *human, size_t hn) { payload[0] = (uint8_t) idx; snprintf(human, hn, "multi-message packets whose first sender is %02x.%02x.%02x", ASHAPE[idx][0], ASHAPE[idx][1], ASHAPE[idx][2]); return 1; }
+/* c02.sender: the same question where the wire cannot answer it (an address is ENCODED only up to its first zero byte, so stale
+ * bytes behind the terminator never show in an acknowledgement): normal mode with the standard configuration, an occupancy report
+ * from master / oc1 that shares its packet with 1 or 2 earlier messages from deeper nodes must mark the board's segment occupied. */
+static void sender_child(const void *job, size_t n) {
+	vs_dev_t devs[VS_MAXDEV]; int nd; size_t pl; const uint8_t *p = job_parse(job, n, devs, &nd, &pl); (void) p;
+	hx_child_begin(NULL, 0, 0, NULL, 0, 0);
+	cfg_install_std();
+	if (hx_start_normal(0)) res_infra("normal start failed");
+	hx_quiesce(); vs_sleep_us(2500000); hx_quiesce();
+	static const char *SEG[2] = {"seg1", "seg4"}; long cases = 0;
+	for (int board = 0; board < 2; board++) for (int a1 = 3; a1 < 7; a1++) for (int a0 = -1; a0 < 7; a0 += 3) {
+		uint8_t payload[120]; int po = 0; uint8_t d = 0x41, num = 0;
+		if (a0 >= 0) po += rc_build_msg(payload + po, ASHAPE[a0], 0, MSG_SYS_PONG, &d, 1);
+		po += rc_build_msg(payload + po, ASHAPE[a1], 0, MSG_SYS_PONG, &d, 1);
+		uint8_t seq = SB.n[board].seq; SB.n[board].seq = seq == 255 ? 1 : (uint8_t) (seq + 1);
+		po += rc_build_msg(payload + po, SB.n[board].addr, seq, MSG_BM_OCC, &num, 1);
+		uint8_t f[300]; size_t fl = rc_frame(f, payload, (size_t) po, 1); env_push_quiet(f, fl); vs_point(); hx_quiesce();
+		uint8_t *um; while ((um = bidib_read_message())) free(um); while ((um = bidib_read_error_message())) free(um);
+		t_bidib_segment_state_query q = bidib_get_segment_state(SEG[board]); int occ = q.known && q.data.occupied; bidib_free_segment_state_query(q);
+		if (!occ) res_violation("processed-with-wrong-sender: a report that shares its packet with messages from deeper nodes was not attributed to its sender", "occupancy report from %s behind a message from %02x.%02x.%02x: %s not occupied", board ? "oc1" : "master", ASHAPE[a1][0], ASHAPE[a1][1], ASHAPE[a1][2], SEG[board]);
+		/* free it again, in a packet of its own */
+		sb_send(board, MSG_BM_FREE, &num, 1); vs_point(); hx_quiesce(); while ((um = bidib_read_message())) free(um);
+		cases++; if (res_nviol() > 3) break;
+	}
+	res_printf("O 1 1\nC addr_cases %ld\n", cases);
+	res_finish();
+}
+static size_t sender_gen(long idx, uint8_t *payload, char *human, size_t hn) { payload[0] = (uint8_t) idx; snprintf(human, hn, "occupancy reports sharing a packet with messages from deeper nodes"); return 1; }
+void c02_register(void) { harness_register("c02.sender", sender_child); harness_register("c02.addr", addr_child); harness_register("c02.long", long_child); harness_register("c02.fault", fault_child); harness_register("c02.chunk", chunk_child); harness_register("c02.loop", loop_child); }
 int c02_run(const char *tier) {
 	g_thorough = !strcmp(tier, "thorough");
 	long execs = 0, states = 0; int exhaustive = 1;
@@ -326,8 +397,13 @@ int c02_run(const char *tier) {
 	ex_map(&l); execs += l.done; states += l.distinct_outcomes; if (!l.exhaustive) exhaustive = 0;
 	ex_spec_t lg = { .harness = "c02.long", .ncases = (LONG_CASES + LONG_BATCH - 1) / LONG_BATCH, .gen = long_gen, .label = "c02.long" };
 	ex_map(&lg); execs += lg.done; states += lg.distinct_outcomes; if (!lg.exhaustive) exhaustive = 0;
+	ex_spec_t ad = { .harness = "c02.addr", .ncases = 7, .gen = addr_gen, .label = "c02.addr" };
+	ex_map(&ad); execs += ad.done; states += ad.distinct_outcomes; if (!ad.exhaustive) exhaustive = 0;
+	ex_spec_t sd = { .harness = "c02.sender", .ncases = 1, .gen = sender_gen, .label = "c02.sender" };
+	ex_map(&sd); execs += sd.done; if (!sd.exhaustive) exhaustive = 0;
+	rep_note("c02.addr: %ld multi-message packets (7 address shapes per position, 2 and 3 messages): the acknowledgement of the last message goes to the address it carries", rep_get("addr_cases"));
 	rep_note("long packets: %ld cases (payload sizes 4..300 x 4 tilings; sizes <= 255 must be delivered message by message, behind larger ones the next packet must be)", rep_get("long_cases"));
-	long cases = rep_get("fault_cases") + rep_get("chunk_cases") + rep_get("loopback_cases") + rep_get("long_cases");
+	long cases = rep_get("fault_cases") + rep_get("chunk_cases") + rep_get("loopback_cases") + rep_get("long_cases") + rep_get("addr_cases");
 	rep_count("executions", execs); rep_count("states", states); rep_count("transitions", cases); rep_flag("exhaustive", exhaustive);
 	rep_count("distinct_nontrivial", cases);
 	rep_note("streams=%ld, corrupted-stream cases=%ld, chunking cases=%ld, loop-back cases=%ld, packets the property leaves open (skipped individually)=%ld",
